@@ -71,6 +71,11 @@ func cmdReplay(args []string) int {
 				if j := strings.IndexByte(a, '!'); j >= 0 {
 					base = a[:j]
 				}
+				if strings.HasPrefix(base, "work:") {
+					if j := strings.LastIndexByte(base, '@'); j >= 0 {
+						base = base[:j]
+					}
+				}
 				found := false
 				for _, e := range enabled {
 					if e == base {
